@@ -19,7 +19,12 @@ void harness(void){
     }
 #endif
   }
+  { dvector *v; initDVector(&v); MatrixColVar(m,v); for(size_t a=0;a<HP_P;a++) CHECK(v->data[a]>=0.0, "column variance is non-negative in IEEE arithmetic"); }
 #if HP_FULL
+  { dvector *v; initDVector(&v); MatrixColVar(m,v);
+    for(size_t a=0;a<HP_P;a++){ double mn=m->data[0][a], mx=mn; for(size_t i=1;i<HP_M;i++){ if(m->data[i][a]<mn) mn=m->data[i][a]; if(m->data[i][a]>mx) mx=m->data[i][a]; }
+      CHECK(v->data[a]>=0.0 && v->data[a]<=(mx-mn)*(mx-mn)*1.0000001+1e-12, "column variance lies between 0 and the squared range (+1e-12 for the rounding of the mean) in IEEE arithmetic");
+      CHECK(c->data[a][a]<=(mx-mn)*(mx-mn)*1.0000001+1e-12, "covariance diagonal does not exceed the squared range"); } }
   { dvector *v; initDVector(&v); MatrixColVar(m,v); for(size_t a=0;a<HP_P;a++){ double d=v->data[a]-c->data[a][a]; CHECK(v->data[a]>=0.0 && d<=1e-9 && d>=-1e-9, "column variance is non-negative and equals the covariance diagonal to 1e-9"); } }
 #endif
   WITNESS();
